@@ -1,0 +1,23 @@
+"""Optional event hooks for external verification tooling.
+
+Disabled unless the environment variable ``VIVARIUM_CORE_VERIF`` is set
+to ``1`` when this module is imported. When disabled, :py:func:`emit`
+does nothing.
+"""
+import os
+
+ENABLED = os.environ.get('VIVARIUM_CORE_VERIF') == '1'
+
+#: Events recorded since the last call to :py:func:`reset`.
+EVENTS = []
+
+
+def emit(event, **fields):
+    """Record an event (no-op unless enabled)."""
+    if ENABLED:
+        EVENTS.append((event, fields))
+
+
+def reset():
+    """Forget all recorded events."""
+    del EVENTS[:]
